@@ -26,6 +26,7 @@ import (
 	"strings"
 	"sync"
 	"time"
+	"unicode/utf8"
 
 	"gosrc.io/xmpp/stanza"
 )
@@ -94,10 +95,41 @@ type c01In struct {
 	// kind reflect: which optional fields are set ("1") / left zero ("0"), one character per
 	// slot of c01Slots(GoType); empty = random fill
 	Mask string `json:"mask,omitempty"`
-	// outside the property's domain (not namespace-explicit, element-name fields that are
-	// not names, characters outside the XML range, an empty *Err): model and code are still
-	// compared, the round-trip oracle does not apply
+	// outside the property's domain (a generic node that is not namespace-explicit, a condition
+	// called text, an empty *Err): model and code are still compared, the bytes must be one
+	// element and decode, the round-trip equality does not apply
 	OutOfDomain bool `json:"out_of_domain,omitempty"`
+	// a generic node or attribute whose name (type xml.Name) is not a name: encoding/xml writes
+	// names unchecked; model and code are compared (both say: not a document), no oracle
+	BadNames bool `json:"bad_names,omitempty"`
+	// the XMLName the stanza value (and its Err) carries: not part of the model's value, the
+	// tag names the element (a stanza parsed from a stream has jabber:client here)
+	RootSpace string `json:"rootspace,omitempty"`
+	RootLocal string `json:"rootlocal,omitempty"`
+	// kind wire: a document that is not the encoding of a value, decoded into the type Into
+	Doc  *c01Tree `json:"doc,omitempty"`
+	Into string   `json:"into,omitempty"`
+}
+
+// c01Tree: an element tree as Model/XmlPrint.v has them (Text != "" or !Elem: character data)
+type c01Tree struct {
+	Elem  bool      `json:"elem,omitempty"`
+	Space string    `json:"space,omitempty"`
+	Local string    `json:"local,omitempty"`
+	Attrs []c01KV   `json:"attrs,omitempty"`
+	Kids  []c01Tree `json:"kids,omitempty"`
+	Text  string    `json:"text,omitempty"`
+}
+
+func (t c01Tree) xt() *c01XT {
+	if !t.Elem {
+		return &c01XT{Raw: strings.Contains(t.Text, "\n"), Text: t.Text}
+	}
+	n := &c01XT{Elem: true, Space: t.Space, Local: t.Local, Attrs: t.Attrs}
+	for _, k := range t.Kids {
+		n.Kids = append(n.Kids, k.xt())
+	}
+	return n
 }
 
 type c01 struct{}
@@ -112,7 +144,7 @@ func (c01) Workers() int  { return 8 }
 // down (fatal stack overflow in the recursive Node encoder) is found again by the driver.
 func (c01) Journal() bool { return true }
 func (c01) Rule() string {
-	return "exhaustive: 3 stanza kinds x 2^5 presence patterns of type/id/from/to/lang x {no child, each child alone}; random: text fields from a pool (ASCII, each XML metacharacter alone and mixed, ]]>, blank-padded, TAB/LF/CR, non-ASCII, astral, 2 kB), Err with code 0/non-zero x fields empty/set, generic Node trees depth<=5 width<=4 with attributes and namespaces, registered extensions (subsets, order, repetition) filled by reflection, SM/SASL-auth/handshake elements; oracle-only reflection cases for every registered type and the SM/SASL/handshake elements, alone and inside its stanza kind; oracle-only subset sweep over which optional fields of each such type are set (every optional position at depth <= 3 is a slot: all-unset, all-set, every slot alone, every slot alone unset, all 2^k patterns when k <= 5 and all 2^g patterns of every group of <= 5 sibling fields with the rest unset / set; pointers nil/non-nil, strings empty/non-empty, numbers zero/non-zero, time.Time zero/non-zero, slices empty/non-empty); oracle-only: a generic payload nested 600000 levels deep (marshal, unmarshal, marshal), generic nodes with namespace-qualified attributes; oracle-only noise cases: every registered type inside its stanza kind with unknown children and same-named descendants (of the extension, of the enclosing element, of the stanza, of the core children) injected at random places of the extension's bytes, typed fields compared with the clean decode; domain: an IQ whose Error pointer is non-nil and points to the all-empty Err is excluded (written as nothing, read back as nil; kept as a hypothesis of the theorem, wf_iq), generated only as an out-of-domain model/code comparison; distinct = kind + presence pattern of every field + text class + tree shape; non-trivial = at least one non-empty field besides the kind"
+	return "exhaustive: 3 stanza kinds x 2^5 presence patterns of type/id/from/to/lang x {no child, each child alone}; random: text fields from a pool (ASCII, each XML metacharacter alone and mixed, ]]>, blank-padded, TAB/LF/CR, non-ASCII, astral, 2 kB), Err with code 0/non-zero x fields empty/set, generic Node trees depth<=5 width<=4 with attributes and namespaces, registered extensions (subsets, order, repetition) filled by reflection, SM/SASL-auth/handshake elements; oracle-only reflection cases for every registered type and the SM/SASL/handshake elements, alone and inside its stanza kind; oracle-only subset sweep over which optional fields of each such type are set (every optional position at depth <= 3 is a slot: all-unset, all-set, every slot alone, every slot alone unset, all 2^k patterns when k <= 5 and all 2^g patterns of every group of <= 5 sibling fields with the rest unset / set; pointers nil/non-nil, strings empty/non-empty, numbers zero/non-zero, time.Time zero/non-zero, slices empty/non-empty); oracle-only: a generic payload nested 600000 levels deep (marshal, unmarshal, marshal), generic nodes with namespace-qualified attributes; oracle-only noise cases: every registered type inside its stanza kind with unknown children and same-named descendants (of the extension, of the enclosing element, of the stanza, of the core children) injected at random places of the extension's bytes, typed fields compared with the clean decode; texts with characters outside the XML range in every text position (they must come back as U+FFFD and change nothing else); names at the edges of encoding/xml's name grammar, measured on the decoder (every ASCII character and both sides of every edge of the start / continuation sets, alone, after a letter, between letters): accepted names as element names, attribute names and error conditions (must round trip), refused names one per case as a condition (Marshal must refuse) and as generic node / attribute names (model/code comparison only); stanza values that carry an XMLName (jabber:client and others: must make no difference); wire documents that are not the encoding of a value (stanzas in jabber:client / jabber:component:accept / no namespace with known, foreign, unknown and repeated children, numbers and booleans with white space and signs, wrong root names, random trees) decoded into every type: compared with the model's dec, and the parsed value must survive its own round trip; domain: an IQ whose Error pointer is non-nil and points to the all-empty Err is excluded (written as nothing, read back as nil; kept as a hypothesis of the theorem, wf_iq), generated only as an out-of-domain model/code comparison, as are a condition called text and generic nodes that are not namespace-explicit; distinct = kind + presence pattern of every field + text class + tree shape; non-trivial = at least one non-empty field besides the kind"
 }
 
 // ---------------------------------------------------------------- pools
@@ -140,6 +172,26 @@ func c01OptText(r *rand.Rand) string {
 	}
 	return c01Text(r)
 }
+
+// texts with characters outside the XML range (valid UTF-8, so that a replay file keeps them):
+// they cannot be written; what must hold is that U+FFFD comes back in their place and that
+// they change nothing else
+var c01Illegal = []string{"\x00", "a\x01b", "\x0b", "\x0c<\x1f>", "nul\x00 fffe\uFFFE ffff\uFFFF", "\uFFFE", "\uFFFF&\x08\""}
+
+// c01TextAny / c01OptTextAny: for the text fields of the stanza core (not for the reflection
+// filler, whose oracle compares without the U+FFFD rule)
+func c01TextAny(r *rand.Rand) string {
+	if r.Intn(16) == 0 {
+		return c01Illegal[r.Intn(len(c01Illegal))]
+	}
+	return c01Text(r)
+}
+func c01OptTextAny(r *rand.Rand) string {
+	if r.Intn(3) == 0 {
+		return ""
+	}
+	return c01TextAny(r)
+}
 func c01Plain(r *rand.Rand, alphabet string) string {
 	n := r.Intn(40)
 	b := make([]byte, n)
@@ -151,6 +203,184 @@ func c01Plain(r *rand.Rand, alphabet string) string {
 
 const c01B64 = "ABCDEFGHIJKLMNOPQRSTUVWXYZabcdefghijklmnopqrstuvwxyz0123456789+/="
 const c01Hex = "0123456789abcdef"
+
+// ---------------------------------------------------------------- names, as the decoder reads them
+
+// Which characters may start / continue a name is MEASURED on encoding/xml's decoder (every
+// code point of the basic plane, once alone and once after a letter), not copied from its
+// tables: the model (XmlLex.name_ok) carries a copy of the tables, the repaired
+// Err.MarshalXML asks the decoder about the whole string, and this is the third, independent
+// reading that the oracle and the generator use.
+var (
+	c01NameOnce             sync.Once
+	c01First, c01Later      [0x10000]bool
+	c01ProbeOK, c01ProbeBad []string // names at the edges of the grammar: accepted / refused
+)
+
+func c01DecoderReadsName(s string) bool {
+	d := xml.NewDecoder(strings.NewReader("<" + s + "></" + s + ">"))
+	tok, err := d.Token()
+	se, ok := tok.(xml.StartElement)
+	if err != nil || !ok || se.Name.Local != s || se.Name.Space != "" || len(se.Attr) != 0 {
+		return false
+	}
+	tok, err = d.Token()
+	_, ok = tok.(xml.EndElement)
+	return err == nil && ok
+}
+
+func c01NameInit() {
+	c01NameOnce.Do(func() {
+		for c := 1; c < 0x10000; c++ {
+			if c >= 0xD800 && c <= 0xDFFF {
+				continue
+			}
+			c01First[c] = c01DecoderReadsName(string(rune(c)))
+			c01Later[c] = c01DecoderReadsName("a" + string(rune(c)))
+		}
+		probe := map[rune]bool{}
+		for c := 1; c < 0x80; c++ { // every ASCII character
+			probe[rune(c)] = true
+		}
+		for c := 2; c < 0x10000; c++ { // both sides of every edge of the two sets
+			if c01First[c] != c01First[c-1] || c01Later[c] != c01Later[c-1] {
+				probe[rune(c)], probe[rune(c-1)] = true, true
+			}
+		}
+		for _, c := range []rune{0xFFFD, 0xFFFE, 0x10000, 0x1F600, 0x10FFFF} {
+			probe[c] = true
+		}
+		var cs []int
+		for c := range probe {
+			if c < 0xD800 || c > 0xDFFF {
+				cs = append(cs, int(c))
+			}
+		}
+		sort.Ints(cs)
+		for _, c := range cs {
+			for _, n := range []string{string(rune(c)), "a" + string(rune(c)), "a" + string(rune(c)) + "b"} {
+				if strings.ContainsRune(n, ':') {
+					continue // a prefixed name: outside the modelled language
+				}
+				if c01IsNameMeasured(n) {
+					c01ProbeOK = append(c01ProbeOK, n)
+				} else {
+					c01ProbeBad = append(c01ProbeBad, n)
+				}
+			}
+		}
+	})
+}
+
+// c01IsName: a local name the decoder reads back as itself (composed from the measured sets;
+// a colon makes a prefixed name)
+func c01IsName(s string) bool {
+	c01NameInit()
+	return c01IsNameMeasured(s)
+}
+
+func c01IsNameMeasured(s string) bool {
+	if s == "" || !utf8.ValidString(s) {
+		return false
+	}
+	for i, c := range s {
+		if c >= 0x10000 || c == ':' {
+			return false
+		}
+		if i == 0 && !c01First[c] || i > 0 && !c01Later[c] {
+			return false
+		}
+	}
+	return true
+}
+
+// the XML character range (XML 1.0, production 2): what may appear in a document at all
+func c01IsXMLChar(c rune) bool {
+	return c == 0x9 || c == 0xA || c == 0xD || (c >= 0x20 && c <= 0xD7FF) || (c >= 0xE000 && c <= 0xFFFD) || (c >= 0x10000 && c <= 0x10FFFF)
+}
+
+// c01San: the text a reader can get back: characters outside the XML range cannot be written,
+// the encoder puts U+FFFD in their place
+func c01San(s string) string {
+	ok := true
+	for _, c := range s {
+		if !c01IsXMLChar(c) {
+			ok = false
+		}
+	}
+	if ok {
+		return s
+	}
+	var sb strings.Builder
+	for _, c := range s {
+		if c01IsXMLChar(c) {
+			sb.WriteRune(c)
+		} else {
+			sb.WriteRune(0xFFFD)
+		}
+	}
+	return sb.String()
+}
+
+// c01SanIn: the description with every text position passed through c01San
+func c01SanIn(in c01In) c01In {
+	out := in
+	out.Type, out.Id, out.From, out.To, out.Lang = c01San(in.Type), c01San(in.Id), c01San(in.From), c01San(in.To), c01San(in.Lang)
+	out.Subject, out.Body, out.Thread, out.Show, out.Status = c01San(in.Subject), c01San(in.Body), c01San(in.Thread), c01San(in.Show), c01San(in.Status)
+	if in.Err != nil {
+		e := *in.Err
+		e.Type, e.Text = c01San(e.Type), c01San(e.Text)
+		out.Err = &e
+	}
+	var sn func(n c01Node) c01Node
+	sn = func(n c01Node) c01Node {
+		m := c01Node{Space: c01San(n.Space), Local: n.Local, Content: c01San(n.Content)}
+		for _, a := range n.Attrs {
+			m.Attrs = append(m.Attrs, c01KV{K: a.K, V: c01San(a.V), NS: a.NS})
+		}
+		for _, k := range n.Nodes {
+			m.Nodes = append(m.Nodes, sn(k))
+		}
+		return m
+	}
+	if in.Any != nil {
+		n := sn(*in.Any)
+		out.Any = &n
+	}
+	out.SId, out.Location, out.SResume, out.PrevId = c01San(in.SId), c01San(in.Location), c01San(in.SResume), c01San(in.PrevId)
+	out.Mechanism, out.Value = c01San(in.Mechanism), c01San(in.Value)
+	return out
+}
+
+// c01BadReason: the value carries an error condition that is not an element name
+func c01BadReason(in c01In) bool {
+	switch in.Kind {
+	case "message", "presence", "iq":
+		return in.Err != nil && in.Err.Reason != "" && !c01IsName(in.Err.Reason)
+	}
+	return false
+}
+
+// c01BadNodeNames: a generic node or attribute name that is not a name (or is xmlns)
+func c01BadNodeNames(n *c01Node) bool {
+	if n == nil {
+		return false
+	}
+	if !c01IsName(n.Local) {
+		return true
+	}
+	for _, a := range n.Attrs {
+		if !c01IsName(a.K) || a.K == "xmlns" {
+			return true
+		}
+	}
+	for i := range n.Nodes {
+		if c01BadNodeNames(&n.Nodes[i]) {
+			return true
+		}
+	}
+	return false
+}
 
 // ---------------------------------------------------------------- registry / types
 
@@ -1127,6 +1357,21 @@ func c01PrintTree(t *c01XT, b *strings.Builder) {
 	b.WriteString("</" + t.Local + ">")
 }
 
+// c01NodeXT: the element a generic node describes (children first, then the character data)
+func c01NodeXT(n c01Node) *c01XT {
+	t := &c01XT{Elem: true, Space: n.Space, Local: n.Local}
+	for _, a := range n.Attrs {
+		t.Attrs = append(t.Attrs, c01KV{K: a.K, V: a.V})
+	}
+	for _, k := range n.Nodes {
+		t.Kids = append(t.Kids, c01NodeXT(k))
+	}
+	if n.Content != "" {
+		t.Kids = append(t.Kids, &c01XT{Text: n.Content})
+	}
+	return t
+}
+
 func c01TreeSx(t *c01XT) Sx {
 	if !t.Elem {
 		return L(Z(1), B(t.Raw), SRunes(t.Text))
@@ -1221,6 +1466,9 @@ func c01GoErr(e *c01Err) stanza.Err {
 	}
 	return stanza.Err{Code: e.Code, Type: stanza.ErrorType(e.Type), Reason: e.Reason, Text: e.Text}
 }
+
+// c01RootName: the XMLName a stanza value carries (what a decoder left there, or anything)
+func c01RootName(in c01In) xml.Name { return xml.Name{Space: in.RootSpace, Local: in.RootLocal} }
 func c01GoAttrs(in c01In) stanza.Attrs {
 	return stanza.Attrs{Type: stanza.StanzaType(in.Type), Id: in.Id, From: in.From, To: in.To, Lang: in.Lang}
 }
@@ -1261,19 +1509,25 @@ var c01Conds = map[string]func() stanza.StanzaErrorGroup{
 func c01Build(in c01In) (v interface{}, fresh interface{}) {
 	switch in.Kind {
 	case "message":
-		m := stanza.Message{Attrs: c01GoAttrs(in), Subject: in.Subject, Body: in.Body, Thread: in.Thread, Error: c01GoErr(in.Err)}
+		m := stanza.Message{XMLName: c01RootName(in), Attrs: c01GoAttrs(in), Subject: in.Subject, Body: in.Body, Thread: in.Thread, Error: c01GoErr(in.Err)}
+		if in.RootSpace != "" {
+			m.Error.XMLName = xml.Name{Space: in.RootSpace, Local: "error"}
+		}
 		for _, e := range in.Exts {
 			m.Extensions = append(m.Extensions, c01GoExt(e))
 		}
 		return m, &stanza.Message{}
 	case "presence":
-		p := stanza.Presence{Attrs: c01GoAttrs(in), Show: stanza.PresenceShow(in.Show), Status: in.Status, Priority: int8(in.Priority), Error: c01GoErr(in.Err)}
+		p := stanza.Presence{XMLName: c01RootName(in), Attrs: c01GoAttrs(in), Show: stanza.PresenceShow(in.Show), Status: in.Status, Priority: int8(in.Priority), Error: c01GoErr(in.Err)}
+		if in.RootSpace != "" {
+			p.Error.XMLName = xml.Name{Space: in.RootSpace, Local: "error"}
+		}
 		for _, e := range in.Exts {
 			p.Extensions = append(p.Extensions, c01GoExt(e))
 		}
 		return p, &stanza.Presence{}
 	case "iq":
-		q := &stanza.IQ{Attrs: c01GoAttrs(in)}
+		q := &stanza.IQ{XMLName: c01RootName(in), Attrs: c01GoAttrs(in)}
 		if in.Payload != nil {
 			if pl, ok := c01GoExt(*in.Payload).(stanza.IQPayload); ok {
 				q.Payload = pl
@@ -1281,6 +1535,9 @@ func c01Build(in c01In) (v interface{}, fresh interface{}) {
 		}
 		if in.Err != nil {
 			e := c01GoErr(in.Err)
+			if in.RootSpace != "" {
+				e.XMLName = xml.Name{Space: in.RootSpace, Local: "error"}
+			}
 			q.Error = &e
 		}
 		if in.Any != nil {
@@ -1443,17 +1700,37 @@ func (c01) Run(inp interface{}) Sx {
 	if c01OracleOnly(in.Kind) {
 		return L(Z(0)) // oracle-only case: no model counterpart
 	}
+	if in.Kind == "wire" {
+		// a document that is not the encoding of a value, in the model printer's spelling
+		var sb strings.Builder
+		c01PrintTree(in.Doc.xt(), &sb)
+		if _, ok := c01ReadDoc([]byte(sb.String())); !ok {
+			return L(Z(-5))
+		}
+		fresh := c01Fresh(in.Into)
+		if err := xml.Unmarshal([]byte(sb.String()), fresh); err != nil {
+			return L(Z(-2))
+		}
+		return L(c01Describe(fresh))
+	}
 	// What is compared with the model is the DOCUMENT the bytes denote and the decoded VALUE,
 	// not the bytes: attribute order, quote style, <a/> versus <a></a>, repeated namespace
 	// declarations and the choice among equivalent escapes are free.
 	v, _ := c01Build(in)
 	b1, err := xml.Marshal(v)
 	if err != nil {
-		return L(Z(-4), SBytes(err.Error()))
+		return L(Z(-4)) // refused (which error, in which words, is not compared)
 	}
 	doc, ok := c01ReadDoc(b1)
 	if !ok {
-		return L(Z(-5), SRunes(string(b1)))
+		return L(Z(-5)) // not one element a decoder reads
+	}
+	if in.BadNames && in.Kind == "node" && c01FirstDiff(c01CanonTreeSx(doc), c01CanonTreeSx(c01NodeXT(*in.Any)), "") != "" {
+		// a decoder is lenient in places (white space after a name, a stray > that ends the tag
+		// early): the bytes are an element then, but not the one the value describes. For the
+		// model "not a name" means "not written as this element" (its lexer reads the encoder's
+		// spelling only), so that is what is compared.
+		return L(Z(-5))
 	}
 	decode := func(b []byte) Sx {
 		_, fresh := c01Build(in)
@@ -1478,9 +1755,74 @@ func (c01) Input(inp interface{}) Sx {
 	if c01OracleOnly(in.Kind) {
 		return L(Z(0))
 	}
+	if in.Kind == "wire" {
+		return L(Z(20), Z(int64(c01IntoCode[in.Into])), c01TreeSx(in.Doc.xt()))
+	}
 	v, _ := c01Build(in)
 	return c01Describe(v)
 }
+
+// the Go type a wire document is decoded into, numbered as the model's values are
+var c01IntoCode = map[string]int{"message": 1, "presence": 2, "iq": 3, "node": 4, "smenable": 5, "smenabled": 6, "smrequest": 7,
+	"smanswer": 8, "smresume": 9, "smresumed": 10, "smfailed": 11, "saslauth": 12, "handshake": 13}
+
+func c01Fresh(kind string) interface{} {
+	_, fresh := c01Build(c01In{Kind: kind, Any: &c01Node{Local: "x"}})
+	return fresh
+}
+
+// c01WireOracle: what the library parses from a foreign document is a value of the library's
+// types like any other: written and parsed back it must be itself, and written again give the
+// same bytes. (Whether the document is accepted, and as what, is C02's business; here only the
+// comparison with the model speaks about that.)
+func c01WireOracle(in c01In) (msg, sig string) {
+	var sb strings.Builder
+	c01PrintTree(in.Doc.xt(), &sb)
+	v1 := c01Fresh(in.Into)
+	if err := xml.Unmarshal([]byte(sb.String()), v1); err != nil {
+		return "", ""
+	}
+	goName := c01GoName[in.Into]
+	switch x := v1.(type) { // the two stated exclusions of the domain
+	case *stanza.IQ:
+		if x.Error != nil && (x.Error.Reason == "text" || (x.Error.Code == 0 && x.Error.Type == "" && x.Error.Reason == "" && x.Error.Text == "")) {
+			return "", ""
+		}
+	case *stanza.Message:
+		if x.Error.Reason == "text" {
+			return "", ""
+		}
+	case *stanza.Presence:
+		if x.Error.Reason == "text" {
+			return "", ""
+		}
+	}
+	b1, err := xml.Marshal(v1)
+	if err != nil {
+		return fmt.Sprintf("the value parsed from %q does not marshal: %v", c01Short([]byte(sb.String())), err), "unstable:" + goName + ":marshal-error"
+	}
+	v2 := c01Fresh(in.Into)
+	if err := xml.Unmarshal(b1, v2); err != nil {
+		return fmt.Sprintf("the value parsed from %q is written as %q, which does not parse: %v", c01Short([]byte(sb.String())), c01Short(b1), err), "unstable:" + goName + ":unmarshal-error"
+	}
+	if d := c01FirstDiff(c01Describe(v1), c01Describe(v2), ""); d != "" {
+		f := c01PathName(in.Into, d)
+		if in.Into != "message" && in.Into != "presence" && in.Into != "iq" {
+			f = c01SmallField(in.Into, d)
+		}
+		return fmt.Sprintf("the value parsed from %q changes at %s when written (%q) and parsed again", c01Short([]byte(sb.String())), f, c01Short(b1)), "unstable:" + goName + ":" + f
+	}
+	b2, err := xml.Marshal(v2)
+	if err != nil || !bytes.Equal(b1, b2) {
+		return fmt.Sprintf("the value parsed from %q is written as %q and then as %q (err %v)", c01Short([]byte(sb.String())), c01Short(b1), c01Short(b2), err), "unstable:" + goName + ":bytes"
+	}
+	return "", ""
+}
+
+var c01GoName = map[string]string{"message": "stanza.Message", "presence": "stanza.Presence", "iq": "stanza.IQ", "node": "stanza.Node",
+	"smenable": "stanza.SMEnable", "smenabled": "stanza.SMEnabled", "smrequest": "stanza.SMRequest", "smanswer": "stanza.SMAnswer",
+	"smresume": "stanza.SMResume", "smresumed": "stanza.SMResumed", "smfailed": "stanza.SMFailed", "saslauth": "stanza.SASLAuth",
+	"handshake": "stanza.Handshake"}
 
 // skeleton of marshalled bytes through an independent tokenisation
 func c01Skeleton(b []byte) string {
@@ -1520,7 +1862,7 @@ func c01Retext(in c01In, r *rand.Rand) c01In {
 		if s == "" {
 			return ""
 		}
-		return c01Text(r)
+		return c01TextAny(r)
 	}
 	out := in
 	out.Type, out.Id, out.From, out.To, out.Lang = re(in.Type), re(in.Id), re(in.From), re(in.To), re(in.Lang)
@@ -1534,7 +1876,7 @@ func c01Retext(in c01In, r *rand.Rand) c01In {
 	ren = func(n c01Node) c01Node {
 		m := c01Node{Space: n.Space, Local: n.Local, Content: re(n.Content)}
 		for _, a := range n.Attrs {
-			m.Attrs = append(m.Attrs, c01KV{K: a.K, V: c01Text(r), NS: a.NS})
+			m.Attrs = append(m.Attrs, c01KV{K: a.K, V: c01TextAny(r), NS: a.NS})
 		}
 		for _, k := range n.Nodes {
 			m.Nodes = append(m.Nodes, ren(k))
@@ -1546,7 +1888,7 @@ func c01Retext(in c01In, r *rand.Rand) c01In {
 		out.Any = &n
 	}
 	out.SId, out.Location, out.SResume, out.PrevId = re(in.SId), re(in.Location), re(in.SResume), re(in.PrevId)
-	out.Mechanism = c01Text(r)
+	out.Mechanism = c01TextAny(r)
 	out.Value = re(in.Value)
 	return out
 }
@@ -1645,15 +1987,26 @@ func (c01) Oracle(inp interface{}, obs Sx) (string, string) {
 		cmd := &stanza.Command{Node: "n", CommandElements: []stanza.CommandElement{&stanza.Note{Type: "info", Text: in.Body}}}
 		return c01ValueRoundTrip("stanza.Command", reflect.ValueOf(cmd), 0, "iq")
 	}
-	goName := map[string]string{"message": "stanza.Message", "presence": "stanza.Presence", "iq": "stanza.IQ", "node": "stanza.Node",
-		"smenable": "stanza.SMEnable", "smenabled": "stanza.SMEnabled", "smrequest": "stanza.SMRequest", "smanswer": "stanza.SMAnswer",
-		"smresume": "stanza.SMResume", "smresumed": "stanza.SMResumed", "smfailed": "stanza.SMFailed", "saslauth": "stanza.SASLAuth",
-		"handshake": "stanza.Handshake"}[in.Kind]
+	if in.Kind == "wire" {
+		return c01WireOracle(in)
+	}
+	goName := c01GoName[in.Kind]
 	// the property itself, on the implementation alone (nothing here goes through the model)
 	v, fresh := c01Build(in)
 	b1, err := xml.Marshal(v)
+	// An error condition is written as an element NAME. One that is not a name must be refused
+	// (nothing written); written as it stands it changes the markup around it.
+	if c01BadReason(in) {
+		if err != nil {
+			return "", ""
+		}
+		return fmt.Sprintf("Err.Reason %q is not an element name and is copied into the markup: %q", in.Err.Reason, c01Short(b1)), "injection:" + goName + ":Reason"
+	}
 	if err != nil {
 		return "marshal failed: " + err.Error(), "nonroundtrip:" + goName + ":marshal-error"
+	}
+	if in.BadNames { // names of type xml.Name that are not names: the caller's business
+		return "", ""
 	}
 	if _, ok := c01ReadDoc(b1); !ok {
 		return fmt.Sprintf("the marshalled bytes are not a well-formed element: %q", c01Short(b1)), "illformed:" + goName
@@ -1665,7 +2018,10 @@ func (c01) Oracle(inp interface{}, obs Sx) (string, string) {
 		return "", ""
 	}
 	desc := c01Describe(fresh)
-	want := c01Describe(v)
+	// equal to the original, characters that cannot be written (outside the XML range) having
+	// become U+FFFD
+	sv, _ := c01Build(c01SanIn(in))
+	want := c01Describe(sv)
 	if d := c01FirstDiff(want, desc, ""); d != "" {
 		f := c01PathName(in.Kind, d)
 		if in.Kind != "message" && in.Kind != "presence" && in.Kind != "iq" {
@@ -1757,7 +2113,19 @@ func c01NodeShape(n *c01Node, depth int) (string, int, int) {
 func (c01) Key(inp interface{}) (string, bool) {
 	in := inp.(c01In)
 	hist("kind:" + in.Kind)
-	if in.Kind == "deepnode" || in.Kind == "qattr" || in.Kind == "cmdnote" {
+	if in.Kind == "wire" {
+		hist("wire:" + in.Into)
+	}
+	if in.BadNames {
+		hist("names:node-not-a-name")
+	}
+	if c01BadReason(in) {
+		hist("names:reason-not-a-name")
+	}
+	if in.RootSpace != "" || in.RootLocal != "" {
+		hist("xmlname-set")
+	}
+	if in.Kind == "deepnode" || in.Kind == "qattr" || in.Kind == "cmdnote" || in.Kind == "wire" {
 		raw, _ := json.Marshal(in)
 		return string(raw), true
 	}
@@ -1819,7 +2187,7 @@ func c01GenErr(r *rand.Rand) *c01Err {
 		e.Reason = []string{"item-not-found", "bad-request", "a", "x1", "service-unavailable", "gone"}[r.Intn(6)]
 	}
 	if r.Intn(2) == 0 {
-		e.Text = c01Text(r)
+		e.Text = c01TextAny(r)
 	}
 	return e
 }
@@ -1837,10 +2205,10 @@ func c01GenNode(r *rand.Rand, depth int, parentNS string) c01Node {
 		}
 	}
 	for i := r.Intn(4); i > 0; i-- {
-		n.Attrs = append(n.Attrs, c01KV{K: c01Names[r.Intn(len(c01Names))], V: c01OptText(r)})
+		n.Attrs = append(n.Attrs, c01KV{K: c01Names[r.Intn(len(c01Names))], V: c01OptTextAny(r)})
 	}
 	if r.Intn(2) == 0 {
-		n.Content = c01Text(r)
+		n.Content = c01TextAny(r)
 	}
 	if depth < 5 {
 		w := r.Intn(5)
@@ -1920,6 +2288,9 @@ func (c01) Gen(r *rand.Rand, tier string) []interface{} {
 					in.Lang = "en"
 				}
 				ch(&in)
+				if (mask+len(out))%3 == 0 { // as parsed from a client stream
+					in.RootSpace, in.RootLocal = "jabber:client", kind
+				}
 				add(in)
 			}
 		}
@@ -1941,13 +2312,23 @@ func (c01) Gen(r *rand.Rand, tier string) []interface{} {
 		{Kind: "iq", Err: &c01Err{}},
 		{Kind: "iq", Id: "1", Any: &c01Node{Local: "error", Content: "not an error"}},
 		{Kind: "message", Err: &c01Err{Code: 1, Reason: "text"}},
-		{Kind: "message", Body: "nul\x00 fffe\uFFFE ffff\uFFFF ctl\x01\x1f", Id: "\x0b"},
-		{Kind: "iq", Any: &c01Node{Local: "q", Content: "\x00\uFFFE", Attrs: []c01KV{{K: "a", V: "\x0c"}}}},
-		{Kind: "saslauth", Mechanism: "\x00"},
+		{Kind: "presence", Err: &c01Err{Type: "cancel", Reason: "text", Text: "t"}},
 	} {
 		in.OutOfDomain = true
 		add(in)
 	}
+	// characters outside the XML range, in every text position
+	for _, t := range c01Illegal {
+		add(c01In{Kind: "message", Type: t, Id: t, From: t, To: t, Lang: t, Subject: t, Body: t, Thread: t, Err: &c01Err{Code: 1, Type: t, Reason: "gone", Text: t}})
+		add(c01In{Kind: "presence", Show: t, Status: t, Err: &c01Err{Type: t, Text: t}})
+		add(c01In{Kind: "iq", Id: t, Any: &c01Node{Space: "urn:x:1", Local: "q", Content: t, Attrs: []c01KV{{K: "a", V: t}}, Nodes: []c01Node{{Space: "urn:x:1", Local: "r", Content: t}}}})
+		add(c01In{Kind: "smenabled", SId: t, Location: t, SResume: t})
+		add(c01In{Kind: "smresumed", PrevId: t})
+		add(c01In{Kind: "saslauth", Mechanism: t, Value: t})
+		add(c01In{Kind: "handshake", Value: t})
+	}
+	c01GenNames(tier, add)
+	c01GenWire(r, tier, add)
 	// the error condition gone (with and without text), in the three stanza kinds; a generic
 	// payload that is called error in its own namespace; every <failed/> condition; SASL auth
 	// and handshake values that are not base64 / hex
@@ -2004,19 +2385,26 @@ func (c01) Gen(r *rand.Rand, tier string) []interface{} {
 			if r.Intn(2) == 0 {
 				in.Type = c01Types[r.Intn(len(c01Types))]
 			} else {
-				in.Type = c01OptText(r)
+				in.Type = c01OptTextAny(r)
 			}
-			in.Id, in.From, in.To, in.Lang = c01OptText(r), c01OptText(r), c01OptText(r), c01OptText(r)
+			in.Id, in.From, in.To, in.Lang = c01OptTextAny(r), c01OptTextAny(r), c01OptTextAny(r), c01OptTextAny(r)
+		}
+		switch in.Kind {
+		case "message", "presence", "iq":
+			if r.Intn(4) == 0 { // the XMLName a decoder (or anybody) left in the value
+				in.RootSpace = []string{"jabber:client", "jabber:component:accept", "urn:x:1", ""}[r.Intn(4)]
+				in.RootLocal = []string{in.Kind, "", "foo"}[r.Intn(3)]
+			}
 		}
 		switch in.Kind {
 		case "message":
-			in.Subject, in.Body, in.Thread = c01OptText(r), c01OptText(r), c01OptText(r)
+			in.Subject, in.Body, in.Thread = c01OptTextAny(r), c01OptTextAny(r), c01OptTextAny(r)
 			if r.Intn(2) == 0 {
 				in.Err = c01GenErr(r)
 			}
 			in.Exts = c01SafeExts(r, 1, r.Intn(6))
 		case "presence":
-			in.Show, in.Status = c01OptText(r), c01OptText(r)
+			in.Show, in.Status = c01OptTextAny(r), c01OptTextAny(r)
 			if r.Intn(2) == 0 {
 				in.Priority = r.Intn(256) - 128
 			}
@@ -2052,12 +2440,12 @@ func (c01) Gen(r *rand.Rand, tier string) []interface{} {
 				in.Resume = &b
 			}
 		case "smenabled":
-			in.SId, in.Location, in.SResume = c01OptText(r), c01OptText(r), []string{"", "true", "false", "1", "x<"}[r.Intn(5)]
+			in.SId, in.Location, in.SResume = c01OptTextAny(r), c01OptTextAny(r), []string{"", "true", "false", "1", "x<"}[r.Intn(5)]
 			in.MaxU = *c01U64(r)
 		case "smanswer":
 			in.HU = *c01U64(r)
 		case "smresume", "smresumed":
-			in.PrevId = c01OptText(r)
+			in.PrevId = c01OptTextAny(r)
 			if r.Intn(2) == 0 {
 				in.H = c01U64(r)
 			}
@@ -2072,12 +2460,12 @@ func (c01) Gen(r *rand.Rand, tier string) []interface{} {
 			in.Mechanism = []string{"PLAIN", "X-OAUTH2", "ANONYMOUS", "", "a b<"}[r.Intn(5)]
 			in.Value = c01Plain(r, c01B64)
 			if r.Intn(4) == 0 {
-				in.Value = c01OptText(r)
+				in.Value = c01OptTextAny(r)
 			}
 		case "handshake":
 			in.Value = c01Plain(r, c01Hex)
 			if r.Intn(4) == 0 {
-				in.Value = c01OptText(r)
+				in.Value = c01OptTextAny(r)
 			}
 		}
 		add(in)
@@ -2503,7 +2891,8 @@ func c01QAttrRoundTrip(in c01In) (msg, sig string) {
 	if err := xml.Unmarshal(b1, back); err != nil {
 		return "unmarshal fails: " + err.Error() + " on " + c01Short(b1), "nonroundtrip:stanza.Node:qualified-attr-unmarshal-error"
 	}
-	if back.Any == nil || c01FirstDiff(c01NodeSx(n), c01NodeSx(*back.Any), "") != "" {
+	want := c01GoNode(*c01SanIn(in).Any) // characters that cannot be written come back as U+FFFD
+	if back.Any == nil || c01FirstDiff(c01NodeSx(want), c01NodeSx(*back.Any), "") != "" {
 		got := "nil"
 		if back.Any != nil {
 			got = fmt.Sprintf("%+v", back.Any.Attrs)
@@ -2515,4 +2904,206 @@ func c01QAttrRoundTrip(in c01In) (msg, sig string) {
 		return fmt.Sprintf("second marshal differs: %q vs %q", c01Short(b1), c01Short(b2)), "nonroundtrip:stanza.Node:qualified-attr-bytes"
 	}
 	return "", ""
+}
+
+// ---------------------------------------------------------------- names at the edges of the grammar
+
+// c01GenNames: the names measured on the decoder (c01NameInit: every ASCII character and both
+// sides of every edge of the two character sets, alone, after a letter and between letters).
+// Accepted ones are used as element names, attribute names and error conditions and must round
+// trip; refused ones, one per case: as a condition the value must be refused by Marshal, as a
+// generic node or attribute name (type xml.Name, the caller's business) model and code must
+// agree on what the bytes are.
+func c01GenNames(tier string, add func(c01In)) {
+	c01NameInit()
+	kinds := []string{"message", "presence", "iq"}
+	step := 12
+	for i := 0; i < len(c01ProbeOK); i += step {
+		chunk := c01ProbeOK[i:]
+		if len(chunk) > step {
+			chunk = chunk[:step]
+		}
+		n := c01Node{Space: "urn:x:1", Local: chunk[0]}
+		seen := map[string]bool{}
+		for _, nm := range chunk {
+			if nm != "xmlns" && !seen[nm] {
+				seen[nm] = true
+				n.Attrs = append(n.Attrs, c01KV{K: nm, V: "v"})
+			}
+			n.Nodes = append(n.Nodes, c01Node{Space: "urn:x:1", Local: nm, Content: "c"})
+		}
+		if i/step%2 == 0 {
+			add(c01In{Kind: "node", Any: &n})
+		} else {
+			add(c01In{Kind: "iq", Id: "n", Type: "set", Any: &n})
+		}
+	}
+	every := 6
+	if tier == "thorough" {
+		every = 1
+	}
+	for i, nm := range c01ProbeOK {
+		if i%every == 0 && nm != "text" {
+			add(c01In{Kind: kinds[i/every%3], Type: "error", Err: &c01Err{Type: "cancel", Reason: nm, Text: "t"}})
+		}
+	}
+	for i, nm := range c01ProbeBad {
+		for pos := 0; pos < 3; pos++ {
+			if tier != "thorough" && pos != i%3 {
+				continue
+			}
+			switch pos {
+			case 0:
+				add(c01In{Kind: "node", Any: &c01Node{Space: "urn:x:1", Local: nm, Content: "c"}, BadNames: true})
+			case 1:
+				add(c01In{Kind: "node", Any: &c01Node{Local: "q", Attrs: []c01KV{{K: "k", V: "1"}, {K: nm, V: "v"}}, Content: "c"}, BadNames: true})
+			case 2:
+				add(c01In{Kind: kinds[i/3%3], Type: "error", Err: &c01Err{Type: "cancel", Reason: nm, Text: "t"}})
+			}
+		}
+	}
+	// longer refused conditions: markup, white space, a prefix
+	for i, nm := range []string{"a/><b", "a b", "a\tb", "a\nb", " a", "a ", "a><b>x</b><a", "a x=\"1\"", "a:b", ":a", "a:", ":", "a/", "/a", "!--", "?a", "a&amp;b", "a&b", "]]>", "not found", "item-not-found "} {
+		add(c01In{Kind: kinds[i%3], Id: "r", Type: "error", Body: "b", Status: "s", Err: &c01Err{Code: 404, Type: "cancel", Reason: nm, Text: "t"}})
+	}
+}
+
+// ---------------------------------------------------------------- wire documents
+
+func c01E(ns, l string, attrs []c01KV, kids ...c01Tree) c01Tree {
+	return c01Tree{Elem: true, Space: ns, Local: l, Attrs: attrs, Kids: kids}
+}
+func c01T(s string) c01Tree { return c01Tree{Text: s} }
+func c01A(kv ...string) []c01KV {
+	var out []c01KV
+	for i := 0; i+1 < len(kv); i += 2 {
+		out = append(out, c01KV{K: kv[i], V: kv[i+1]})
+	}
+	return out
+}
+
+const (
+	c01NSStanzas = "urn:ietf:params:xml:ns:xmpp-stanzas"
+	c01NSPubErr  = "http://jabber.org/protocol/pubsub#errors"
+	c01NSSM      = "urn:xmpp:sm:3"
+	c01NSSASL    = "urn:ietf:params:xml:ns:xmpp-sasl"
+	c01NSComp    = "jabber:component:accept"
+)
+
+// numbers and booleans as a peer may spell them: encoding/xml trims white space (Unicode's)
+// before strconv sees the value of a tag-driven field; the hand-written loops do not
+var c01WireNums = []string{"5", " 5", "5 ", " 5 ", "\t-7\n", "+5", "-0", "", " ", "5 5", "x", "127", "128", "-128", "-129", "255", "256",
+	"\u00a05\u2003", "\u200b5", "\u30005", "5\u0085", "0x10", "1_0", "05", "4294967296", "9223372036854775807", "18446744073709551616", "-1", "1e3", "\r\n12\r\n"}
+var c01WireBools = []string{"true", "false", "1", "0", "t", "F", "TRUE", "True", " true ", "\tfalse\n", "", " ", "yes", "tRue", "\u00a01"}
+
+// c01GenWire: documents that are not the encoding of a value, decoded into each type
+func c01GenWire(r *rand.Rand, tier string, add func(c01In)) {
+	w := func(into string, doc c01Tree) { d := doc; add(c01In{Kind: "wire", Into: into, Doc: &d}) }
+	for _, own := range []string{"", "jabber:client", c01NSComp} {
+		// every core child in the stanza's own namespace, text around them, an unknown child, a
+		// look-alike in another namespace, repeated children
+		w("message", c01E(own, "message", c01A("id", "1", "type", "chat", "from", "a@b/c", "to", "d@e", "lang", "en"),
+			c01T("\n  "), c01E(own, "subject", nil, c01T("s")), c01E(own, "body", nil, c01T("b1")), c01E("urn:x:1", "body", nil, c01T("foreign")),
+			c01E(own, "thread", nil, c01T("t")), c01E(own, "unknown", nil, c01E(own, "body", nil, c01T("nested"))), c01E(own, "body", nil, c01T("b2 "), c01E(own, "i", nil, c01T("skipped")), c01T(" tail")),
+			c01E(own, "error", c01A("code", "404", "type", "cancel"), c01E(c01NSStanzas, "item-not-found", nil), c01E(c01NSStanzas, "text", nil, c01T("not here"))), c01T("\n")))
+		w("message", c01E(own, "message", c01A("type", "error", "type", "again"),
+			c01E(own, "error", c01A("type", "wait"), c01E(c01NSStanzas, "conflict", nil)),
+			c01E(own, "error", c01A("code", "7"), c01E(c01NSPubErr, "closed-node", nil), c01E("urn:x:1", "ignored", nil), c01E(c01NSStanzas, "gone", nil, c01T("xmpp:new@host")))))
+		w("presence", c01E(own, "presence", c01A("from", "a@b", "id", "p"),
+			c01E(own, "show", nil, c01T("away")), c01E(own, "status", nil, c01T("st")), c01E(own, "priority", nil, c01T(" 5 ")),
+			c01E("urn:x:1", "priority", nil, c01T("9")), c01E(own, "status", nil, c01T("st2")),
+			c01E(own, "error", c01A("type", "modify"), c01E(c01NSStanzas, "text", nil, c01T("only text")))))
+		w("iq", c01E(own, "iq", c01A("id", "i", "type", "error", "lang", "de"),
+			c01E("urn:x:1", "query", c01A("a", "1"), c01T("t1"), c01E("urn:x:1", "item", nil), c01T("t2"), c01E("", "bare", nil)),
+			c01E(own, "error", c01A("type", "cancel", "code", " 5"), c01E(c01NSStanzas, "feature-not-implemented", nil))))
+		w("iq", c01E(own, "iq", c01A("id", "i", "type", "result"),
+			c01E("urn:x:1", "error", c01A("code", "1"), c01T("a payload called error")), c01E("urn:x:2", "second", nil), c01E(own, "error", nil)))
+		// children of another namespace than the stanza's are not its fields
+		other := "jabber:client"
+		if own == other {
+			other = "jabber:server"
+		}
+		w("message", c01E(own, "message", nil, c01E(other, "body", nil, c01T("b")), c01E(other, "error", c01A("type", "cancel"))))
+		w("presence", c01E(own, "presence", nil, c01E(other, "show", nil, c01T("x")), c01E(other, "priority", nil, c01T("x"))))
+		for _, n := range c01WireNums {
+			w("presence", c01E(own, "presence", nil, c01E(own, "priority", nil, c01T(n))))
+			w("message", c01E(own, "message", nil, c01E(own, "error", c01A("code", n, "type", "cancel"))))
+		}
+	}
+	for _, n := range c01WireNums {
+		w("smanswer", c01E(c01NSSM, "a", c01A("h", n)))
+		w("smenabled", c01E(c01NSSM, "enabled", c01A("id", "x", "max", n, "resume", "true")))
+		w("smenable", c01E(c01NSSM, "enable", c01A("max", n)))
+		w("smresume", c01E(c01NSSM, "resume", c01A("previd", "p", "h", n)))
+		w("smresumed", c01E(c01NSSM, "resumed", c01A("h", n, "previd", "p")))
+		w("smfailed", c01E(c01NSSM, "failed", c01A("h", n), c01E(c01NSStanzas, "item-not-found", nil), c01E(c01NSStanzas, "conflict", nil), c01E("urn:x:1", "reset", nil)))
+	}
+	for _, b := range c01WireBools {
+		w("smenable", c01E(c01NSSM, "enable", c01A("resume", b)))
+	}
+	// the element name is checked by the tag-driven types only
+	for _, into := range []string{"smenable", "smenabled", "smrequest", "smanswer", "smresume", "smresumed", "smfailed", "saslauth", "handshake", "message", "presence", "iq", "node"} {
+		w(into, c01E(c01NSSM, "enabled", c01A("id", "x", "h", "3", "mechanism", "m"), c01T("text"), c01E(c01NSStanzas, "conflict", nil)))
+		w(into, c01E("", "r", nil))
+	}
+	w("smrequest", c01E(c01NSSM, "r", c01A("x", "y"), c01T("text")))
+	w("saslauth", c01E(c01NSSASL, "auth", c01A("mechanism", "PLAIN", "mechanism", "X"), c01T("ab"), c01E(c01NSSASL, "x", nil, c01T("in")), c01T("cd")))
+	w("handshake", c01E(c01NSComp, "handshake", c01A("a", "b"), c01T(" 0123 "), c01E("urn:x:1", "x", nil), c01T("ab")))
+	w("node", c01E("urn:x:1", "a", c01A("k", "v", "k", "w"), c01T("t1"), c01E("urn:x:1", "b", nil, c01T("in")), c01T("t2"), c01E("", "c", nil), c01E("urn:x:2", "d", nil, c01E("", "e", nil))))
+	// random documents
+	n := 150
+	if tier == "thorough" {
+		n = 6000
+	}
+	intos := []string{"message", "presence", "iq", "node", "smenable", "smenabled", "smanswer", "smresume", "smresumed", "smfailed", "saslauth", "handshake"}
+	rootOf := map[string][2]string{"smenable": {c01NSSM, "enable"}, "smenabled": {c01NSSM, "enabled"}, "smanswer": {c01NSSM, "a"}, "smresume": {c01NSSM, "resume"},
+		"smresumed": {c01NSSM, "resumed"}, "smfailed": {c01NSSM, "failed"}, "saslauth": {c01NSSASL, "auth"}, "handshake": {c01NSComp, "handshake"}}
+	spaces := []string{"", "jabber:client", "urn:x:1", c01NSStanzas, c01NSPubErr, c01NSSM}
+	locals := []string{"body", "subject", "thread", "error", "show", "status", "priority", "text", "gone", "conflict", "reset", "item-not-found", "closed-node", "q", "x"}
+	keys := []string{"id", "type", "from", "to", "lang", "code", "h", "max", "resume", "previd", "location", "mechanism", "k"}
+	val := func() string {
+		switch r.Intn(4) {
+		case 0:
+			return c01WireNums[r.Intn(len(c01WireNums))]
+		case 1:
+			return c01WireBools[r.Intn(len(c01WireBools))]
+		}
+		return c01OptText(r)
+	}
+	var gen func(depth int, own string) c01Tree
+	gen = func(depth int, own string) c01Tree {
+		ns := own
+		if r.Intn(3) == 0 {
+			ns = spaces[r.Intn(len(spaces))]
+		}
+		e := c01Tree{Elem: true, Space: ns, Local: locals[r.Intn(len(locals))]}
+		for i := r.Intn(3); i > 0; i-- {
+			e.Attrs = append(e.Attrs, c01KV{K: keys[r.Intn(len(keys))], V: val()})
+		}
+		lastText := false
+		for i := r.Intn(4); i > 0; i-- {
+			if !lastText && r.Intn(3) == 0 {
+				if t := val(); t != "" {
+					e.Kids = append(e.Kids, c01T(t))
+					lastText = true
+				}
+				continue
+			}
+			if depth < 3 {
+				e.Kids = append(e.Kids, gen(depth+1, ns))
+				lastText = false
+			}
+		}
+		return e
+	}
+	for i := 0; i < n; i++ {
+		into := intos[r.Intn(len(intos))]
+		doc := gen(0, spaces[r.Intn(3)])
+		if rn, ok := rootOf[into]; ok && r.Intn(8) != 0 {
+			doc.Space, doc.Local = rn[0], rn[1]
+		} else if r.Intn(2) == 0 {
+			doc.Local = into
+		}
+		w(into, doc)
+	}
 }
